@@ -58,6 +58,7 @@ def deep_equal(seq1: Iterable[Any],
     if collation is None:
         collation = UNICODE_CODEPOINT_COLLATION
 
+    seq1, seq2 = list(seq1), list(seq2)  # evaluate operands before holding the collation lock
     # a nested call (members of maps and arrays) reuses the collation manager already entered
     with nullcontext(manager) if manager else CollationManager(collation, token=token) as cm:
         for value1, value2 in zip_longest(seq1, seq2):
